@@ -3,6 +3,8 @@ package promise
 import (
 	"context"
 	"sync/atomic"
+
+	"github.com/aperturerobotics/util/verifhook"
 )
 
 // Promise is an asynchronous result to an operation.
@@ -47,6 +49,7 @@ func (p *Promise[T]) SetResult(val T, err error) bool {
 	if p.isDone.Swap(true) {
 		return false
 	}
+	verifhook.Point("yield-setresult", p)
 	p.result = &val
 	p.err = err
 	close(p.done)
